@@ -84,6 +84,45 @@ PROPS = {
         "not_decided": ["per-combinator semantics of exec_with_tracker", "exec_jet and jet functions (C code)"],
         "explanation": "",
     },
+    "C11": {
+        "units": ["value"],
+        "kani": {"quick": ["s07_usize_div_ceil_8"], "thorough": []},
+        "level": "proof",
+        "level_text": "Unbounded deductive proof (Verus) on the real impls of PartialEq / Ord / Hash for Value: eq returns true exactly when the two "
+                      "types have the same structure and the two padded bit strings denote the same element (spec function `sem`, independent of "
+                      "buffer, offset, sum padding bits and trailing bits); cmp is the lexicographic order on (type root, compact bits), Equal exactly "
+                      "when eq, dual and transitive; hash feeds the hasher a function of the type root and the compact bits only, hence equal values "
+                      "hash equally. Rests on the worklist-invariant proof of CompactBitsIter::next and on the accessor contracts.",
+        "level_note": "Assumed: Iterator::eq / Iterator::cmp / Ordering::then_with / for-loop desugaring as their std definitions (R10 rewrites, "
+                      "modelled by verified helper loops over the real `next`); Tmr (SHA-256 type roots) injective and its derived Ord a total order; "
+                      "Hasher modelled as an item sink; Arc<[u8]> helpers (R8). Word's derived Eq/Ord/Hash delegate to Value.",
+        "assumptions": [
+            "type Merkle roots (TMR) are collision free: equal roots <=> same type structure",
+            "derive(Ord) on Tmr([u8;32]) is a total order",
+            "Iterator::eq / Iterator::cmp compare element-wise / lexicographically until one side is exhausted",
+            "values are well-formed (bit_offset + width inside the buffer; Final's cached fields consistent) — established by every constructor under contract",
+        ],
+        "not_decided": ["values produced by code not under contract (Bit Machine output through from_padded_bits IS covered; jets' C output is not)"],
+        "explanation": "",
+    },
+    "C10": {
+        "units": ["value"],
+        "kani": {"quick": ["s07_usize_div_ceil_8"], "thorough": []},
+        "level": "proof",
+        "level_text": "Unbounded deductive proof (Verus), per function, on the real value code: padded length = type width; copy_bits / right_shift_1 / "
+                      "product (bit-level, every alignment, stale bits overwritten); ValueRef::{first_bit, as_left, as_right, as_product} return exactly "
+                      "the stated sub-range and `None` exactly on a wrong tag/shape; Value::{unit, left, right, product, zero, from_padded_bits}; "
+                      "constructor/accessor inverse theorems; RawByteIter::next; CompactBitsIter (worklist invariant: yields exactly "
+                      "`compact(padded bits, type)` = the padded encoding minus padding). PARTIAL: see level_note.",
+        "level_note": "Not (yet) under contract: Value::from_compact_bits and Value::prune (explicit two-stack codecs), iter_padded's Take<BitIter<..>> adaptor, "
+                      "the Word/uN constructors. Assumed: Arc<[u8]>/Box/Vec conversions (R8 helpers), TMR injectivity, BitIter contracts imported from unit bitstream.",
+        "assumptions": [
+            "Arc<[u8]> / Box<[u8]> / Vec<u8> conversions preserve the byte sequence (R8 helpers)",
+            "type widths below 2^60 bits (no saturation)",
+        ],
+        "not_decided": ["from_compact_bits (decode of the compact encoding)", "prune", "iter_padded adaptor"],
+        "explanation": "",
+    },
 }
 
 NOT_APPLICABLE = [
